@@ -114,8 +114,20 @@ class CuckooDriver:
         return (fp % cap, self.hf_eff(str(fp)) % cap)
 
     # ------------------------------------------------------------------------------------
+    def _skip_this_verify(self, force=False):
+        """look-ups after EVERY step would refresh whatever the structure remembers from its last query before the next update can
+        trip over it: with case["verify_mask"] the comparison with the model runs only at some steps (always at the end)"""
+        vm = self.case.get("verify_mask", 0)
+        self.nv = getattr(self, "nv", -1) + 1
+        if vm and not force and not getattr(self, "_final", False) and not (vm >> (self.nv % 8)) & 1:
+            self.feats.add("steps_without_queries")
+            return True
+        return False
+
     def verify(self, what, after_full=False):
         ctx, o = self.ctx, self.obj
+        if self._skip_this_verify(force=after_full):
+            return
         snap = snapshot(o, self.counting)
         m = self._o("member")
         if m:
@@ -329,6 +341,9 @@ class CuckooDriver:
                 self.step(op)
             if enum:
                 self._enumerate_last(ops[-1])
+            else:
+                self._final = True
+                self.verify("at the end of the history")
         if self.sr.calls:
             self.feats.add("scripted_random_consulted")
         for f in self.feats:
@@ -398,7 +413,7 @@ def case_strategy(tier, classes=("cuckoo", "counting"), allow_reload=False, max_
             "fs": draw(st.sampled_from([1, 2, 3, 4])), "rate": draw(st.sampled_from([2, 2, 3, 1])),
             "auto": draw(st.booleans()), "hash": draw(st.sampled_from(["default", "narrow", "narrow16", "sha", "clustered", "clustered", "falsy_sha"])),
             "pool": pool, "tape": draw(st.lists(st.integers(0, 5), max_size=60)),
-            "ops": oplist, "enum_last": enum,
+            "ops": oplist, "enum_last": enum, "verify_mask": draw(st.one_of(st.just(0), st.just(0), st.integers(1, 255))),
         }
 
     return case()
